@@ -1,4 +1,5 @@
 import LiquidVerif.Model.Lex
+import LiquidVerif.Model.LiquidLines
 /-!
 # From tokens to output for the constructs of C10
 
@@ -86,7 +87,8 @@ def nodesOf (d : Delims) (ps : List Piece) : Except LexError (List Node) := node
 /-! ## A small concrete `Sem` for the driver (stream `render`)
 
 Output statements and `echo` print a quoted string literal or an integer literal, or the value of a variable
-set by `assign`; `assign v = <literal>` stores; `liquid` runs its lines (`echo`, `assign`, `#` comments).
+set by `assign`; `assign v = <literal>` stores; `liquid` runs the inner tokens of `LiquidLines.tokenizeLiquid`
+(`echo`, `assign`; `#` lines are comments).
 Anything else prints nothing. The state is the assignment list. -/
 
 abbrev Env := List (Str × Str)
@@ -116,25 +118,6 @@ def splitAssign (e : Str) : Str × Str :=
   let v := (e.dropWhile (· != '=')).drop 1
   (strip k, strip v)
 
-def splitLines (s : Str) : List Str :=
-  let rec go : Str → Str → List Str
-    | [], cur => [cur.reverse]
-    | c :: cs, cur => if c = '\n' then cur.reverse :: go cs [] else go cs (c :: cur)
-  go s []
-
-def isBlankTab (c : Char) : Bool := c = ' ' || c = '\t' || c = '\r'
-
-/-- one line of a `liquid` tag: `[ \t]*(?P<name>#|\w+)[ \t]*(?P<expr>.*?)[ \t\r]*?(\n+|$)` -/
-def liquidLine (ln : Str) : Option (Str × Str) :=
-  let l := ln.dropWhile isBlankTab
-  match l with
-  | [] => none
-  | '#' :: r => some (kwHash, r)
-  | _ =>
-    let name := l.takeWhile isWord
-    let rest := ((l.dropWhile isWord).dropWhile isBlankTab)
-    some (name, ((rest.reverse).dropWhile isBlankTab).reverse)
-
 def kwEcho : Str := ['e', 'c', 'h', 'o']
 def kwAssign : Str := ['a', 's', 's', 'i', 'g', 'n']
 def kwLiquid : Str := ['l', 'i', 'q', 'u', 'i', 'd']
@@ -146,26 +129,42 @@ def simpleTag (env : Env) (name : Str) (e : Str) : Env × Str :=
     ((kv.1, evalExpr env kv.2) :: env, [])
   else (env, [])
 
-def runLines (env : Env) : List Str → Env × Str
+/-- the inner tokens of a `liquid` tag (`_tokenize_liquid_expression`, model `LiquidLines.tokenizeLiquid` shared
+with C20) run as tags: a `tag` token with the `expression` token that follows it, if any -/
+def runInner (env : Env) : List LiquidLines.Token → Env × Str
   | [] => (env, [])
-  | ln :: rest =>
-    match liquidLine ln with
-    | none => runLines env rest
-    | some (name, e) =>
-      let o := simpleTag env name e
-      let r := runLines o.1 rest
-      (r.1, o.2 ++ r.2)
+  | t :: rest =>
+    if t.kind = "tag" then
+      match rest with
+      | e :: rest' =>
+        if e.kind = "expression" then
+          let o := simpleTag env t.value e.value
+          let r := runInner o.1 rest'
+          (r.1, o.2 ++ r.2)
+        else
+          let o := simpleTag env t.value []
+          let r := runInner o.1 (e :: rest')
+          (r.1, o.2 ++ r.2)
+      | [] => simpleTag env t.value []
+    else runInner env rest
+termination_by ts => ts.length
+decreasing_by all_goals (simp only [List.length_cons]; omega)
 
-def concreteSem : Sem Env where
+/-- `cmtS` = `env.comment_start_string` (decides which lines of a `liquid` tag are comments) -/
+def concreteSem (cmtS : Str) : Sem Env where
   out := fun env e => (env, evalExpr env e)
   tag := fun env name e =>
     let ex := e.getD []
-    if name = kwLiquid then runLines env (splitLines ex) else simpleTag env name ex
+    if name = kwLiquid then
+      let r := LiquidLines.tokenizeLiquid cmtS 0 ex
+      -- an ILLEGAL line raises a syntax error in the implementation; the generators never produce one
+      if r.2 then (env, []) else runInner env r.1
+    else simpleTag env name ex
 
 /-- `env.from_string(assemble d ps).render()` for the constructs above -/
 def renderPieces (d : Delims) (ps : List Piece) : Except LexError Str :=
   match nodesOf d ps with
   | .error e => .error e
-  | .ok ns => .ok (render concreteSem [] ns).2
+  | .ok ns => .ok (render (concreteSem d.cmtS) [] ns).2
 
 end LiquidVerif.Lex
